@@ -340,6 +340,36 @@ def directed_cases(rng, n):
                            f"{zoo.show(top)}: visit methods return dataclasses.replace(node) (deep={deep})",
                            oracle_fail=f5, sig="frame|directed|transform-equal-copy")
                 del a, b, top, snap5
+        # (4d) a node whose tuple-annotated child field was GIVEN a list (accepted when runtime type checks are off, which
+        #      is the default): the list is that node's field value; a rewriting / removing transform builds new nodes and
+        #      leaves the list of the existing node as it was
+        if _round < 4:
+            for mode in ("rewrite", "remove"):
+                gc.collect()
+                NODE_REGISTRY.clear()
+                kids7 = [zoo.Leaf(v=rng.randint(0, 3)), zoo.Un(zoo.Leaf(v=5)), zoo.Leaf(v=rng.randint(4, 7))]
+                f7 = None
+                try:
+                    h7 = zoo.Tup(list(kids7))            # a list where a tuple is annotated
+                except Exception:  # noqa  (a library that refuses it: nothing to check)
+                    h7 = None
+                if h7 is not None and isinstance(h7.items, list):
+                    top7 = zoo.Un(h7)
+                    before7 = (h7.items, list(h7.items), h7.id, h7.content_id, hash(h7))
+                    try:
+                        _Rewrite(mode).transform(top7)
+                    except Exception:  # noqa
+                        pass
+                    if h7.items is not before7[0] or len(h7.items) != len(before7[1]) or \
+                            any(x is not y for x, y in zip(h7.items, before7[1])):
+                        f7 = "the child list of a pre-existing node was changed in place by transform()"
+                    elif (h7.id, h7.content_id, hash(h7)) != before7[2:]:
+                        f7 = "id / content_id / hash of a pre-existing node changed"
+                    del top7
+                yield Case("directed:transform-list-valued-field", None, None, h7 is not None,
+                           f"Tup(items=<list of 3 nodes>) under Un, transform mode={mode}", oracle_fail=f7,
+                           sig="frame|directed|transform-list-valued-field")
+                del kids7, h7
         # (4c) a payload whose id is held by a LIVE node that differs from the payload in a non-comparable property
         #      (the payload is older: the node was replaced keeping its id; or the payload was edited): reading it back
         #      returns / re-uses the live node and changes none of its fields -- alone and as a child of a tree
